@@ -16,6 +16,7 @@ import os
 import random
 
 from . import sim
+from . import c09_layout as L
 
 FMT_DEFS = {
     "PS": '##FORMAT=<ID=PS,Number=1,Type=Integer,Description="Phase set identifier">',
@@ -28,6 +29,17 @@ BAD_HP = ["5-1", "5-1,6-2", "5-1,5-1", "5-1,5-2,5-3", "5-0,5-1", "x-1,x-2", "5,6
 
 
 def gen_file_case(rng, quick=True):
+    case = _gen_file_case(rng, quick)
+    # positions of different contigs coincide on purpose (c09_layout); with such a layout mostly a dense plan for the writer
+    # (every position with a phase and a component for every target), so that the records at the coinciding positions are phased
+    case["layout"] = L.pick_layout(case["gen_seed"], p_plain=0.5)
+    if not L.is_plain(case["layout"]):
+        case["n_contigs"] = case["layout"]["contigs"]
+        case["dense_plan"] = (case["gen_seed"] >> 3) % 4 != 0
+    return case
+
+
+def _gen_file_case(rng, quick=True):
     return {"kind": "file", "gen_seed": rng.randrange(1 << 40),
             "n_samples": rng.choice([1, 2, 2, 3]), "n_contigs": rng.choice([1, 2, 2, 3]),
             "n_sites": rng.choice([5, 8, 10, 12] if quick else [4, 8, 12, 16]),
@@ -152,7 +164,22 @@ def build_file(case, d):
     contigs = [f"chr{c + 1}" for c in range(case["n_contigs"])]
     contig_seqs = {c: "N" * 6000 for c in contigs}
     sites = {c: _sites(rng, case, c) for c in contigs}
+    lay = case.get("layout")
+    base = (lay or {}).get("base", "independent")
+    if not L.is_plain(lay) and len(contigs) > 1:
+        if base in ("same", "identical"):
+            for c in contigs[1:]:
+                sites[c] = list(sites[contigs[0]])
+        for prev, c in zip(contigs, contigs[1:]):
+            def anchors(xs):
+                return sorted({p for p, ref, alts in xs if L.phasable_record({"ref": ref, "alts": alts}, case["only_snvs"])})
+            off = L.chain_offset(lay.get("chain"), sorted(p for p, _, _ in sites[prev]), anchors(sites[prev]),
+                                 sorted(p for p, _, _ in sites[c]), anchors(sites[c]))
+            sites[c] = [(p + off, ref, alts) for p, ref, alts in sites[c]]
     truth = {c: [[_gt_of(rng, len(alts)) for _ in samples] for (_, _, alts) in sites[c]] for c in contigs}
+    if base == "identical":
+        for c in contigs[1:]:
+            truth[c] = [list(x) for x in truth[contigs[0]]]
     os.makedirs(d, exist_ok=True)
     # ---- variant file
     recs_v = []
@@ -200,6 +227,11 @@ def build_file(case, d):
         groups = []
         for c in pcontigs:
             recs = []
+            if base == "identical" and groups and c != pcontigs[0] and rng.random() < 0.8:
+                # a copy of the file's first contig (calls, encodings, phase-set ids and all), shifted like its sites
+                off = sites[c][0][0] - sites[pcontigs[0]][0][0]
+                groups.append([dict(r, chrom=c, pos=r["pos"] + off, calls=[dict(x) for x in r["calls"]]) for r in groups[0]])
+                continue
             for (pos, ref, alts), gts in zip(sites[c], truth[c]):
                 if rng.random() < 0.1:
                     continue                                     # the phase file lacks this record
